@@ -4370,6 +4370,10 @@ impl Handler {
         let logical_program = join_continuation_lines(&strip_comments(trimmed));
         let mut created_here: Vec<String> = Vec::new();
         let mut dropped_here: Vec<String> = Vec::new();
+        // graphs a `.kg create` line of this program is expected to bring into being (the
+        // caller will own them); `created_here` lists every create for the ACL bookkeeping
+        // below, which looks at what actually exists afterwards
+        let mut owned_here: Vec<String> = Vec::new();
         for line in logical_program.lines() {
             let line = line.trim();
             if line.is_empty() {
@@ -4446,7 +4450,7 @@ impl Handler {
                             self.get_kg_role_for_user(kg, &identity.username, &identity.role)
                         {
                             crate::auth::authorize_kg_operation(&kg_role, &stmt)?;
-                        } else if created_here.iter().any(|k| k == kg) {
+                        } else if owned_here.iter().any(|k| k == kg) {
                             // created by an earlier statement of this program: the caller
                             // becomes its owner (the ACL row is written after the program)
                             crate::auth::authorize_kg_operation(&crate::auth::KgRole::Owner, &stmt)?;
@@ -4463,7 +4467,7 @@ impl Handler {
                     // Like a refused create, a `.kg use` of a graph that does not exist (any
                     // more) fails at execution and leaves the executor where it was - unless
                     // graphs are auto-created, then it switches to the new, empty graph.
-                    let exists_by_then = created_here.iter().any(|k| k == name)
+                    let exists_by_then = owned_here.iter().any(|k| k == name)
                         || (!dropped_here.iter().any(|k| k == name)
                             && self
                                 .storage
@@ -4480,7 +4484,8 @@ impl Handler {
                     // reached) leaves the executor on the graph it was on: following it here
                     // would authorize the rest of the program as the owner of a "new" graph
                     // while it actually runs against the old one.
-                    let exists_by_then = created_here.iter().any(|k| k == name);
+                    created_here.push(name.clone());
+                    let exists_by_then = owned_here.iter().any(|k| k == name);
                     let dropped_by_then = dropped_here.iter().any(|k| k == name);
                     let accepted = !exists_by_then
                         && match self.storage.read().check_create_knowledge_graph(name) {
@@ -4491,13 +4496,13 @@ impl Handler {
                             Err(_) => false,
                         };
                     if accepted {
-                        created_here.push(name.clone());
+                        owned_here.push(name.clone());
                         current_kg = Some(name.clone());
                     }
                 }
                 statement::Statement::Meta(statement::MetaCommand::KgDrop(name)) => {
                     dropped_here.push(name.clone());
-                    created_here.retain(|k| k != name);
+                    owned_here.retain(|k| k != name);
                 }
                 _ => {}
             }
